@@ -674,6 +674,9 @@ def check(model, rep, tier):
     units_clause(model, rep, funcs)
     halo_clause(model, rep, funcs)
     bank_clause(model, rep, funcs)
+    from .generic import narrow_index_obligations, functions_in
+    narrow_index_obligations(model, rep, functions_in(model, ["acryo/pick/_concrete.py", "acryo/pick/_base.py"]), "bank")
+    rep.floor("NARROW", 1, "(arg-max over the template bank)")
     # "the same whether the image is a numpy array or a dask array": the container-kind branch of pick_molecules only re-wraps (rule shared with C10)
     from .generic import representation_branch_obligations
     try:
